@@ -47,7 +47,7 @@ def gen_cases(chk):
         for ty in range(10):
             reps = 6 if thorough else 3
             for _ in range(reps):
-                mode = rng.choice((0, 0, 1, 2, 3, 4, 5)) if ty < 2 else rng.choice((0, 0, 1, 4))
+                mode = rng.choice((0, 0, 1, 2, 3, 4, 5)) if ty < 2 else rng.choice((0, 0, 1, 2, 3, 4))
                 szm = rng.choice(list(SZMODES))
                 kind = rng.choice((0, 1, 2, 3, 6))          # 6 = constant array
                 if ty < 2:
@@ -69,7 +69,7 @@ def gen_cases(chk):
             n *= v
         dims = ",".join("%x" % v for v in [0] * (5 - len(t)) + list(t))
         for ty in range(10):
-            for mode in ((1, 4, 5) if ty < 2 else (1, 4)):
+            for mode in ((1, 4, 5, 2, 3) if ty < 2 else (1, 4, 2, 3)):
                 if ty < 2:
                     scale, off = 100.0, 0.0
                 else:
@@ -77,7 +77,9 @@ def gen_cases(chk):
                     scale, off = a_, (a_ * 20 if ty in (2, 4, 6, 8) else 0.0)
                 cfg = "szMode=SZ_BEST_SPEED;psnr=%s;normErr=0.05" % rng.choice(("60", "35.5"))
                 data = "g:%d:%x:%x:%s:%s" % (rng.choice((0, 2, 3)), rng.getrandbits(20), n, dbits(scale), dbits(off))
-                cases.append("meta %x %s %x %s %s %s %s" % (ty, dims, mode, dbits(50.0 * scale), dbits(1e-2), cfg, data))
+                # the combined modes take the smaller (AND, 2) or the larger (OR, 3) of the two bounds: the argument is put on the losing side
+                absarg = 50.0 * scale if mode != 3 else (1e-5 * scale if ty < 2 else 1.0)
+                cases.append("meta %x %s %x %s %s %s %s" % (ty, dims, mode, dbits(absarg), dbits(1e-2 if mode != 3 else 0.2), cfg, data))
     # streams produced after a compression of another element type, and through the thread-safe customize entry (no dispatcher)
     for t in ((1000,), (30, 40), (8, 9, 10)):
         n = 1
@@ -141,9 +143,10 @@ def oracle(case, out):
         # float/double, constant streams included: the block carries the absolute bound the call was made with ((float) of it)
         fails.append((None, "absolute bound reported %g, requested %g (%s stream)" % (f32(b6), absb, "constant" if d["const"] == "1" else "regular")))
     if mode in (0, 2, 3) and d["const"] == "0":
-        if ty >= 2 and b6 != f32bits(absb):
+        want = absb if mode == 0 else e          # integer streams record the bound the call works with: in the combined modes the smaller / larger of the two
+        if ty >= 2 and b6 != f32bits(want):
             cls = None
-            fails.append((cls, "integer stream reports absolute bound %g, requested %g" % (f32(b6), absb)))
+            fails.append((cls, "integer stream reports absolute bound %g, the call's bound is %g" % (f32(b6), want)))
     if mode in (1, 2, 3) and d["const"] == "0" and b10 != f32bits(rel):
         cls = None
         fails.append((cls, "range-relative ratio reported %g, requested %g" % (f32(b10), rel)))
